@@ -3,6 +3,7 @@ import MidnightZK.Proofs.C11.Edwards
 import MidnightZK.Proofs.C11.Jubjub
 import MidnightZK.Proofs.C11.Toy
 import MidnightZK.Proofs.C11.Weierstrass
+import MidnightZK.Proofs.C11.Codec
 import MidnightZK.Model.C11.Params
 import MidnightZK.Model.C11.Codec
 import MidnightZK.Gen.C11Constants
@@ -322,6 +323,150 @@ example : homToAffine (2 : Toy.K) 4 2 = homToAffine 1 2 1 :=
   (bn_ct_eq_iff_affine_eq (2 : Toy.K) 4 2 1 2 1).1 (by decide)
 
 end weierstrass
+
+/-! ## Codecs -/
+section codecs
+open Codec
+
+/-- `JubjubAffine::from_bytes` (ZIP 216 enabled; also `JubjubExtended::from_bytes`,
+`batch_from_bytes`, the subgroup decoder): every accepted 32-byte string is the encoding
+`to_bytes` of the point it decodes to — the decoder is canonical (injective on what it accepts). -/
+theorem jj_decode_canonical (b : Nat) (hb : b < 2 ^ 256) (p : Fp Params.blsR × Fp Params.blsR)
+    (h : fromBytesInner ⟨Params.jjD⟩ true b = some p) : toBytesNat p = b :=
+  fromBytesInner_canonical (q := Params.blsR) (by decide) (by decide) _ b hb p h
+
+/-- Non-vacuity: the canonical encoding `01 00 … 00` of the identity is accepted. -/
+example : fromBytesInner (⟨Params.jjD⟩ : Fp Params.blsR) true 1 = some (⟨0⟩, ⟨1⟩) := by
+  decide +kernel
+
+/-- A non-canonical `v` (≥ the modulus after masking the sign bit) is rejected by both
+decoders (`Base::from_bytes_le` check). -/
+theorem jj_decode_rejects_noncanonical_v {q : Nat} (d : Fp q) (z : Bool) (b : Nat)
+    (h : b % 2 ^ 255 ≥ q) : fromBytesInner d z b = none := by
+  unfold fromBytesInner
+  simp [h]
+
+example : fromBytesInner (⟨Params.jjD⟩ : Fp Params.blsR) true Params.blsR = none :=
+  jj_decode_rejects_noncanonical_v _ _ _ (by decide)
+
+/-- The two encodings ZIP 216 removed — `(0, ±1)` with the sign bit set — are rejected by
+`from_bytes` and still accepted by the documented legacy entry point
+`from_bytes_pre_zip216_compatibility` (which is therefore not canonical, by design). -/
+theorem jj_zip216_encodings :
+    fromBytesInner (⟨Params.jjD⟩ : Fp Params.blsR) true (2 ^ 255 + 1) = none ∧
+    fromBytesInner (⟨Params.jjD⟩ : Fp Params.blsR) true (2 ^ 255 + (Params.blsR - 1)) = none ∧
+    fromBytesInner (⟨Params.jjD⟩ : Fp Params.blsR) false (2 ^ 255 + 1) = some (⟨0⟩, ⟨1⟩) ∧
+    toBytesNat ((⟨0⟩, ⟨1⟩) : Fp Params.blsR × Fp Params.blsR) ≠ 2 ^ 255 + 1 := by
+  decide +kernel
+
+/-- Flag discipline of `blst_p1_uncompress` / `blst_p2_uncompress` as wrapped by
+`from_compressed_unchecked` (hence of `from_compressed`, `from_bytes`): an accepted string has
+the compression bit; with the infinity bit every other bit is zero and the result is the
+identity; otherwise `x` is the canonical element read from the low 381 bits and is non-zero
+(DESIGN: `g1_decode_checks`, flag part). -/
+theorem bls_decode_flag_checks {K : Type} [CoordField K] [DecidableEq K] [OfNat K 0]
+    (c : FieldCodec K) (b : K) (bs : List Nat) (P : WPoint K) (h : blsUncompress c b bs = some P) :
+    bs.headD 0 &&& 0x80 ≠ 0 ∧
+    (bs.headD 0 &&& 0x40 ≠ 0 → P = none ∧ bs.headD 0 &&& 0x3f = 0 ∧ allZero (bs.drop 1) = true) ∧
+    (bs.headD 0 &&& 0x40 = 0 → ∃ x y, P = some (x, y) ∧ c.ofBe 3 bs = some x ∧ x ≠ 0) := by
+  unfold blsUncompress at h
+  simp only at h
+  split at h
+  · cases h
+  · next h80 =>
+    refine ⟨h80, ?_, ?_⟩
+    · intro h40
+      simp only [h40, if_true] at h
+      split at h
+      · next hz => cases h; exact ⟨rfl, hz.1, hz.2⟩
+      · cases h
+    · intro h40
+      simp only [h40, ne_eq, not_true_eq_false, if_false] at h
+      split at h
+      · cases h
+      · next x hx =>
+        split at h
+        · cases h
+        · next y0 hy =>
+          split at h
+          · cases h
+          · next hx0 => cases h; exact ⟨x, _, rfl, hx, hx0⟩
+
+/-- Non-vacuity on the real parameters: the standard compressed encoding of the G1 generator
+is accepted by the model decoder. -/
+example : (blsUncompress (fpCodec Params.blsP 48) (4 : Fp Params.blsP)
+    (blsCompress (fpCodec Params.blsP 48) (some (⟨Params.g1GenX⟩, ⟨Params.g1GenY⟩)))).isSome = true := by
+  decide +kernel
+
+/-- `Curve25519::from_bytes` / `Curve25519Affine::from_bytes` (curve25519-dalek's `decompress`) is
+NOT canonical — KNOWN FINDING `C11:ed:decoder-accepts-noncanonical`: the encoding of `(0, 1)` with
+the sign bit set, and `y = p + 1`, both decode to the identity, whose encoding is `01 00 … 00`.
+The full-strength statement `∀ bs p, edDecode bs = some p → edEncode p = bs` is refuted here. -/
+theorem ed_decode_not_canonical :
+    ¬ (∀ bs p, bs.length = 32 → edDecode bs = some p → edEncode p = bs) := by
+  intro h
+  have := h (1 :: (List.replicate 30 0 ++ [0x80])) (⟨0⟩, ⟨1⟩) (by decide) (by decide +kernel)
+  revert this
+  decide +kernel
+
+/-- What does hold for the Curve25519 decoder: an accepted string whose `y` is below the modulus
+and whose decoded `x` is non-zero or has a clear sign bit re-encodes to itself
+(PARTIAL: canonicity of `y` and of the sign of zero are the two missing checks). -/
+theorem ed_decode_canonical_partial (bs : List Nat) (p : Fp Params.edP × Fp Params.edP)
+    (hn : leBytesToNat bs < 2 ^ 256) (hy : leBytesToNat bs % 2 ^ 255 < Params.edP)
+    (h : edDecode bs = some p) (hx : p.1.v ≠ 0 ∨ leBytesToNat bs / 2 ^ 255 % 2 = 0) :
+    p.2.v + (p.1.v % 2) * 2 ^ 255 = leBytesToNat bs := by
+  unfold edDecode at h
+  simp only at h
+  split at h
+  · cases h
+  · next x0 hs =>
+    have hq0 : 0 < Params.edP := by decide
+    have hodd : Params.edP % 2 = 1 := by decide
+    have hx0 := Fp.sqrt_lt hq0 hs
+    cases h
+    simp only at hx ⊢
+    rw [Nat.mod_eq_of_lt hy]
+    have hdec : leBytesToNat bs = leBytesToNat bs % 2 ^ 255 + (leBytesToNat bs / 2 ^ 255) * 2 ^ 255 := by
+      have := Nat.div_add_mod (leBytesToNat bs) (2 ^ 255); omega
+    have h2 : leBytesToNat bs / 2 ^ 255 < 2 := by
+      apply Nat.div_lt_of_lt_mul; omega
+    -- the non-negative root
+    have hnn : (if x0.isOdd then -x0 else x0).v % 2 = 0 ∧ (if x0.isOdd then -x0 else x0).v < Params.edP ∧
+        ((if x0.isOdd then -x0 else x0).v = 0 → x0.v = 0) := by
+      by_cases ho : x0.isOdd = true
+      · simp only [ho, if_true]
+        have hodd' : x0.v % 2 = 1 := by simpa [Fp.isOdd] using ho
+        have hne : x0.v ≠ 0 := by omega
+        obtain ⟨a, b⟩ := neg_parity hodd hx0 hne
+        refine ⟨by omega, b, ?_⟩
+        intro hz; omega
+      · simp only [ho]
+        have : x0.v % 2 ≠ 1 := by simpa [Fp.isOdd] using ho
+        exact ⟨by omega, hx0, fun h => h⟩
+    generalize (if x0.isOdd then -x0 else x0) = xe at hnn hx ⊢
+    obtain ⟨e1, e2, e3⟩ := hnn
+    by_cases hsg : (leBytesToNat bs / 2 ^ 255 % 2 == 1) = true
+    · simp only [hsg, if_true] at hx ⊢
+      have hs1 : leBytesToNat bs / 2 ^ 255 = 1 := by
+        have : leBytesToNat bs / 2 ^ 255 % 2 = 1 := by simpa using hsg
+        omega
+      have hne : xe.v ≠ 0 := by
+        intro hz
+        cases hx with
+        | inl hx =>
+          apply hx
+          show negMod xe.v Params.edP = 0
+          rw [hz]; decide
+        | inr hx => omega
+      obtain ⟨a, _⟩ := neg_parity hodd e2 hne
+      rw [a]; omega
+    · simp only [hsg] at hx ⊢
+      have : leBytesToNat bs / 2 ^ 255 % 2 ≠ 1 := by simpa using hsg
+      simp only [Bool.false_eq_true, if_false]
+      omega
+
+end codecs
 
 /-! ## Constants of the Rust sources (regenerated into `Gen/C11Constants.lean` on every run) -/
 section constants
